@@ -1,6 +1,7 @@
 #pragma once
 #include <string>
 #include <memory>
+#include <vector>
 
 #include "type.h"
 
@@ -83,6 +84,15 @@ namespace sqf::runtime
         virtual ::sqf::runtime::type type() const = 0;
 
         virtual std::size_t hash() const = 0;
+
+        /// <summary>
+        /// Part of the recursion test of containers (arrays, hashmaps): walks the
+        /// values held by this value. `visited` is the path walked so far.
+        /// Returns false as soon as a value on the path is met again, i.e. a
+        /// container would (directly or indirectly) contain itself.
+        /// Values that hold no other values have nothing to walk.
+        /// </summary>
+        virtual bool recursion_test_(std::vector<const data*>& visited) const { return true; }
     };
 }
 namespace std
